@@ -282,8 +282,32 @@ def chk_hrp_substitutions(ver, plen):
     return n, viols
 
 
+def chk_helpers(witver, testnet, salt):
+    """h160_to_p2wpkh_address / h256_to_p2wsh_address with an explicit witness version"""
+    from btc_hd_wallet import helper
+    viols, n = [], 0
+    hrp = "tb" if testnet else "bc"
+    for fname, plen in (("h160_to_p2wpkh_address", 20), ("h256_to_p2wsh_address", 32)):
+        pr = prog(plen, "mix", salt)
+        n += 1
+        st, a = attempt(getattr(helper, fname), pr, testnet, witver)
+        exp = enc.segwit_encode(hrp, witver, pr) if enc.segwit_legal(witver, plen, hrp) else None
+        cls = "v%d" % witver if witver in (0, 1, 16, 17) else "v2-15"
+        if exp is None:
+            if st == "ok" and a is not None:
+                viols.append(V("%s:%s:illegal:%s:address" % (P, fname, cls), "%s(witver=%d) returned %r" % (fname, witver, a)))
+        elif st != "ok" or a != exp:
+            viols.append(V("%s:%s:legal:%s:wrong-string" % (P, fname, cls), "%s(%s, testnet=%r, witver=%d)" % (fname, pr.hex()[:16], testnet, witver), a, exp))
+        elif refused(hrp, a):
+            viols.append(V("%s:%s:legal:%s:not-decodable" % (P, fname, cls), "decode() refuses the helper's own output %r" % a))
+    return n, viols
+
+
 def execute(case):
     k = case["k"]
+    if k == "helpers":
+        n, vs = chk_helpers(case["witver"], case["testnet"], case.get("salt", 0))
+        return R("violation" if vs else "helper-agrees", viols=vs, n=n)
     if k == "grid":
         o, vs = chk_grid(case["hrp"], case["ver"], case["plen"], case["pat"], case.get("salt", 0))
         return R(o, viols=vs)
@@ -484,6 +508,8 @@ def run(ctx):
     cases = [{"k": "grid", "hrp": h, "ver": v, "plen": n, "pat": p, "salt": salt} for h in HRPS for v in range(0, 18) for n in range(0, 43)
              for p in ("00", "ff", "mix")]
     ctx.product("version-x-length-grid", cases, execute)
+    ctx.product("address-helpers-x-witness-version", [{"k": "helpers", "witver": v, "testnet": t, "salt": salt} for v in range(0, 18) for t in (False, True)],
+                execute, parallel=False)
     legal = [(v, n) for v in range(0, 17) for n in range(2, 41) if enc.segwit_legal(v, n)]
     if not ctx.thorough:
         legal = [(v, n) for v, n in legal if v in (0, 1, 2, 15, 16) or n in (2, 20, 32, 40)]
